@@ -19,6 +19,8 @@ ScalarTable == <<
   Sc("literal", <<"|", "line1", "line2">>, "line1\nline2\n"), Sc("literal", <<"|-", "line1", "line2">>, "line1\nline2"), Sc("literal", <<"|", "one">>, "one\n"),
   Sc("literal", <<"|-", "a: b", "# not a comment">>, "a: b\n# not a comment"), Sc("literal", <<"|", "p1", "", "p2">>, "p1\n\np2\n"),
   Sc("folded", <<">-", "folded text">>, "folded text"), Sc("folded", <<">", "folded text">>, "folded text\n"),
+  \* block scalars whose first line starts with blanks need the indentation indicator
+  Sc("literal", <<"|2", " indented", "second">>, " indented\nsecond\n"), Sc("literal", <<"|2-", "  two", "x">>, "  two\nx"), Sc("folded", <<">2", " lead", "next">>, " lead\nnext\n"),
   \* @U1@: non-ASCII text (concretised by the harness: TLC cannot print it)
   Sc("plain", <<"@U1@">>, "@U1@"), Sc("double", <<"\"@U1@\"">>, "@U1@"), Sc("single", <<"'@U1@'">>, "@U1@"), Sc("literal", <<"|-", "@U1@", "x">>, "@U1@\nx"),
   \* @U2@: non-ASCII text of the basic multilingual plane only
